@@ -83,6 +83,10 @@ const CLASSES: &[(&str, &str, &str, &str, Option<&str>)] = &[
     ("texture", "Eo", "Texture2D<float4> NAME;", "(int)NAME.Load(int3(0, 0, 0)).x", None),
     ("texarray", "E", "Texture2D<float4> NAME[2];", "(int)NAME[0].Load(int3(0, 0, 0)).x", None),
     ("sampler", "Exo", "SamplerState NAME = StaticSampler { Filter = MIN_MAG_MIP_LINEAR; };", "(NAME, 1)", None),
+    // exported since fix batch 2 (before: panics of the Metal type generator): a constant buffer of a const type (01558a2),
+    // a texture with a unorm element type (4de3e6b) — threaded exactly like their plain counterparts
+    ("cbufferc", "E", "ConstantBuffer<const CbS> NAME;", "(int)NAME.v.x", None),
+    ("textureu", "Eo", "Texture2D<unorm float4> NAME;", "(int)NAME.Load(int3(0, 0, 0)).x", None),
 ];
 
 impl GGlobal {
@@ -1429,7 +1433,7 @@ fn gen_prog(rng: &mut Rng, big: bool) -> GProg {
     let ng = rng.below(if big { 9 } else { 6 }) as usize;
     let mut globals: Vec<GGlobal> = Vec::new();
     for i in 0..ng {
-        let row = match rng.below(12) {
+        let row = match rng.below(14) {
             0..=3 => &CLASSES[0],
             4 => &CLASSES[1],
             5 | 6 => &CLASSES[2],
@@ -1437,7 +1441,9 @@ fn gen_prog(rng: &mut Rng, big: bool) -> GProg {
             8 => &CLASSES[4],
             9 => &CLASSES[5],
             10 => &CLASSES[6],
-            _ => &CLASSES[7],
+            11 => &CLASSES[7],
+            12 => &CLASSES[8],
+            _ => &CLASSES[9],
         };
         let fl = row.1;
         let mut inits = Vec::new();
